@@ -262,14 +262,71 @@ def corr_fill(ctx, rep, mdl, lines):
 TAILS = [[("e", "\x1b[7m"), ("t", "→"), ("e", "\x1b[0m")], [], [("t", ">")], [("t", "…")], [("t", "日")]]
 
 
+# candidates for ONE grapheme cluster wider than 2 columns (Hangul jamo sequences, emoji + modifiers / ZWJ sequences): what
+# the implementation's tables make of them is read per case and counted (`truncate:cut-at-cluster-width=N`)
+WIDE_CLUSTERS = ["\u1100\uac00", "\u1100\u1100\u1161", "\u1100\uac00\u11a8", "\U0001f44d\U0001f3fd",
+                 "\U0001f468\u200d\U0001f469\u200d\U0001f467", "\U0001f926\U0001f3fc\u200d\u2642\ufe0f",
+                 "\u2764\u200d\U0001f525"]
+
+
+def _walk_cut(gr, items, dw, used):
+    """`truncate_str_impl`'s walk over the text items: (used, width of the first cluster that does not fit or None)."""
+    for k, s in items:
+        if k != "t":
+            continue
+        for _, w in gr.cache.get(s, []):
+            if used + w > dw:
+                return used, w
+            used += w
+    return used, None
+
+
+def _cut_width(gr, items, tail, dw):
+    tw = sum(w for k, s in tail if k == "t" for _, w in gr.cache.get(s, []))
+    used = tw if tw <= dw else _walk_cut(gr, tail, dw, 0)[0]
+    return _walk_cut(gr, items, dw, used)[1]
+
+
 def corr_truncate(ctx, rep, mdl, gr):
     rng = ctx.rng
     cases = []
-    for _ in range(ctx.n(500, 10000)):
+    for n_ in range(ctx.n(500, 10000)):
         items = rand_items(rng, balanced=rng.random() < 0.85)
         tail = rng.choice(TAILS) if rng.random() < 0.8 else rand_items(rng, maxn=3)
-        cases.append((rng.randint(0, 12), tail, items))
-    gr.ensure([s for _, tail, items in cases for k, s in tail + items if k == "t"])
+        wide = n_ % 4 == 0
+        if wide:   # a text with a cluster wider than 2 columns (no two adjacent text items: merged into a neighbour)
+            t = "".join(rng.choice("ab1_") for _ in range(rng.randint(0, 3))) + rng.choice(WIDE_CLUSTERS) + rng.choice(["", "a", "日b"])
+            pos = rng.randint(0, len(items))
+            if pos > 0 and items[pos - 1][0] == "t":
+                items[pos - 1] = ("t", items[pos - 1][1] + t)
+            elif pos < len(items) and items[pos][0] == "t":
+                items[pos] = ("t", t + items[pos][1])
+            else:
+                items.insert(pos, ("t", t))
+        cases.append([rng.randint(0, 12), tail, items, wide])
+    gr.ensure([s for _, tail, items, _ in cases for k, s in tail + items if k == "t"])
+    for c in cases:
+        w, tail, items, wide = c
+        if wide and rng.random() < 0.85:   # cut inside a wide cluster (the `width_of_grapheme > 2` arm)
+            offs, off = [], 0
+            for k, s in items:
+                if k == "t":
+                    for _, cw in gr.cache.get(s, []):
+                        if cw > 2:
+                            offs.append((off, cw))
+                        off += cw
+            if offs:
+                off, cw = rng.choice(offs)
+                tw = sum(x for k, s in tail if k == "t" for _, x in gr.cache.get(s, []))
+                c[0] = w = off + tw + rng.randrange(cw)
+        cwid = _cut_width(gr, items, tail, w)
+        if sum(x for k, s in items if k == "t" for _, x in gr.cache.get(s, [])) <= w:
+            cwid = None   # the line fits: returned as it is
+        if cwid is not None:
+            rep.count("truncate:cut-at-cluster-width=%s" % (cwid if cwid < 5 else "5+"))
+            if cwid > 2:
+                rep.count("truncate:wide-cluster-at-cut")
+    cases = [(w, tail, items) for w, tail, items, _ in cases]
     hreq, mreq = [], []
     for w, tail, items in cases:
         hreq.append("style.truncate %d %s %s" % (w, hx("".join(s for _, s in tail)), hook_items_fields(items)))
